@@ -279,6 +279,12 @@ func runC05(p *Program, r *Result) {
 		r.Rule("R05.stream-writer", "STREAM writer: one nonce per sealed chunk, the final flag on the last chunk only, nothing sealed after it (= R06.6)", 9)
 		checkStreamWriter(p, r)
 	}()
+	r.Rule("R05.ssh-tag", "a file addressed to several SSH keys opens with each of them: an SSH stanza for another key is passed over whatever its size (= R04.3)", 2)
+	for _, spec := range [][2]string{{"RSAIdentity", "unwrap"}, {"Ed25519Identity", "unwrap"}} {
+		if fn := p.Func(pkgSSH, spec[0], spec[1]); fn != nil {
+			checkFatalBeforeTag(p, r, fn)
+		}
+	}
 	r.Rule("R05.recipes", "call-site recipes, stanza layouts and guards equal the specification table", 60)
 	checkSites(p, r, recipeSites, "C05")
 	r.Rule("R05.constants", "labels, sizes and format constants equal the specification table", 24)
